@@ -243,6 +243,12 @@ func makeAccumulatorFunc(expr parser.ItemType) (newAccumulatorFunc, error) {
 				AddFunc: func(v float64) {
 					hasValue = true
 					count++
+					if count == 1 {
+						// Same as the Prometheus engine: the first member initialises the
+						// mean, which keeps a single +/-Inf from turning into NaN.
+						mean, cMean = v, 0
+						return
+					}
 					delta := v - (mean + cMean)
 					mean, cMean = function.KahanSumInc(delta/count, mean, cMean)
 					aux, cAux = function.KahanSumInc(delta*(v-(mean+cMean)), aux, cAux)
@@ -269,6 +275,12 @@ func makeAccumulatorFunc(expr parser.ItemType) (newAccumulatorFunc, error) {
 				AddFunc: func(v float64) {
 					hasValue = true
 					count++
+					if count == 1 {
+						// Same as the Prometheus engine: the first member initialises the
+						// mean, which keeps a single +/-Inf from turning into NaN.
+						mean, cMean = v, 0
+						return
+					}
 					delta := v - (mean + cMean)
 					mean, cMean = function.KahanSumInc(delta/count, mean, cMean)
 					aux, cAux = function.KahanSumInc(delta*(v-(mean+cMean)), aux, cAux)
